@@ -93,6 +93,8 @@ Proof.
   assert (Hplen : v_len r + len (lab ++ rdb) * 8 = v_len r + 88).
   { unfold len. rewrite app_length, HlenL, Hlen. reflexivity. }
   rewrite Hplen.
+  assert (Hok : pfx_len_ok v6 (v_len r) = true) by (unfold pfx_len_ok; destruct v6; cbn [abits] in Hl; lia).
+  rewrite Hok. cbn [negb].
   destruct (255 <? v_len r + 88) eqn:E; [apply N.ltb_lt in E; destruct v6; cbn [abits] in Hl; lia|].
   fold (pfx_octets v6 (v_addr r) (v_len r)). rewrite pfx_octets_eq by exact Hl.
   repeat split; assumption.
@@ -150,6 +152,7 @@ Lemma construct_vpn_length_pos v6 w r b : construct_vroute v6 w r = Ok b -> b <>
 Proof.
   unfold construct_vroute. destruct (if w then _ else _); cbn [bind]; try discriminate.
   destruct (construct_rd (v_rd r)); cbn [bind]; try discriminate.
+  destruct (negb _); [discriminate|].
   destruct (255 <? _); [discriminate|]. intros H; injection H as <-. discriminate.
 Qed.
 
